@@ -734,6 +734,39 @@ def ndenumerate(arr):
     return iter([((i, j), a._d[i * c + j]) for i in range(r) for j in range(c)])
 
 
+def resize(a, new_shape):
+    """np.resize: the flattened array repeated / truncated to the new size."""
+    a = asarray(a)
+    shape = _shape_of(new_shape)
+    n = 1
+    for k in shape:
+        n *= k
+    if a.size == 0:
+        return zeros(shape, a.dtype)
+    flat = [a._d[i % a.size] for i in range(n)]
+    return ndarray(flat, shape, a.dtype)
+
+
+def searchsorted(a, v, side='left', sorter=None):
+    """np.searchsorted on a sorted 1-D array (comparisons fork when symbolic)."""
+    if sorter is not None:
+        raise ShimGap('searchsorted(sorter=...)')
+    a = asarray(a)
+
+    def one(x):
+        k = 0
+        for e in a._d:
+            if (e < x) if side == 'left' else (e <= x):
+                k += 1
+            else:
+                break
+        return k
+    if isinstance(v, (ndarray, list, tuple)):
+        arr = asarray(v)
+        return ndarray([one(x) for x in arr._d], arr.shape, int64)
+    return one(v)
+
+
 def append(arr, values, axis=None):
     a = asarray(arr)
     v = asarray(values) if isinstance(values, (ndarray, list, tuple)) else asarray([values])
@@ -883,12 +916,39 @@ def amax(a):
     return m
 
 
-def minimum(a, b):
-    return _elementwise2(a, b, lambda x, y: x if x <= y else y)
+class _Ufunc2:
+    """np.minimum / np.maximum: callable, with .accumulate (running extreme) and .reduce."""
+
+    def __init__(self, pick, name):
+        self._pick = pick
+        self.__name__ = name
+
+    def __call__(self, a, b):
+        return _elementwise2(a, b, self._pick)
+
+    def accumulate(self, a):
+        a = asarray(a)
+        if a.ndim != 1:
+            raise ShimGap('%s.accumulate on %d-d' % (self.__name__, a.ndim))
+        out = []
+        cur = None
+        for v in a._d:
+            cur = v if cur is None else self._pick(cur, v)
+            out.append(cur)
+        return ndarray(out, a.shape, a.dtype)
+
+    def reduce(self, a):
+        a = asarray(a)
+        if a.size == 0:
+            raise ValueError('zero-size array to reduction operation %s which has no identity' % self.__name__)
+        cur = a._d[0]
+        for v in a._d[1:]:
+            cur = self._pick(cur, v)
+        return cur
 
 
-def maximum(a, b):
-    return _elementwise2(a, b, lambda x, y: x if x >= y else y)
+minimum = _Ufunc2(lambda x, y: x if x <= y else y, 'minimum')
+maximum = _Ufunc2(lambda x, y: x if x >= y else y, 'maximum')
 
 
 def _elementwise2(a, b, fn):
@@ -1126,7 +1186,7 @@ class _Shim:
         self.integer = integer
         self.floating = floating
         self.errstate = errstate
-        for name in ('append', 'empty_like', 'zeros_like', 'full', 'where', 'ndenumerate'):
+        for name in ('append', 'empty_like', 'zeros_like', 'full', 'where', 'ndenumerate', 'resize', 'searchsorted'):
             setattr(self, name, g[name])
         for name in ('array', 'asarray', 'zeros', 'empty', 'ones', 'linspace', 'arange', 'diff',
                      'concatenate', 'cumsum', 'nonzero', 'argwhere', 'minimum', 'maximum',
